@@ -44,10 +44,18 @@ func TestRaceC03(t *testing.T) {
 		atomic.AddInt64(&iterations, 1)
 		m := message.NewMessage(watermill.NewUUID(), []byte("p"))
 		m.Metadata.Set("k", "v")
+		zero := round%3 == 2
+		if zero {
+			// a message built without the constructor: its first Ack / Nack calls arrive together
+			m = &message.Message{}
+		}
 		var acks, nacks int32
 		var wg sync.WaitGroup
 		for g := 0; g < 6; g++ {
 			g := g
+			if zero && g%3 == 2 {
+				g = g % 2
+			}
 			wg.Add(1)
 			go func() {
 				defer wg.Done()
